@@ -179,6 +179,9 @@ def scenarios(prop, quick, seed):
         elif fam == 6:         # a reload of a present entry while the entry is removed wholesale (InvalidateAll) or by eviction
             sc.update(getters=(j // 8) % 2, bulk=0, refreshers=1 + (j // 16) % 2, refresh=1, preload=1, outcomes=[["val"], ["val", "val", "err"]][(j // 8) % 2],
                       writers=[["invalidateAll"], ["invalidateAll", "set"], ["evict"], ["invalidate"], ["invalidateAll", "invalidateAll"]][(j // 8) % 5])
+            if set(sc["writers"]) == {"invalidateAll"} and (j // 16) % 2 == 0:
+                # the same on a plain cache (no bound, no expiry, no handlers): code paths that exist only there
+                sc.update(bare=1, getters=0, outcomes=["val"], policy=sc["policy"].split("+")[0] + "+inflight")
         elif fam == 7:         # BulkGet callers whose missing keys are all in flight elsewhere (they must wait for the joined loads)
             sc.update(getters=1 + j % 2, bulk=2, bulkkeys=1 + (j // 8) % 2, refreshers=0, refresh=0, preload=0, writers=[],
                       outcomes=[["val"], ["val", "nf"], ["val", "err"]][(j // 16) % 3])
